@@ -2150,6 +2150,11 @@ func (d *Data) updateMaxLabel(v dvid.VersionID, label uint64) (changed bool, err
 	d.mlMu.Lock()
 	defer d.mlMu.Unlock()
 
+	// Another request may have raised the max label since the check above.
+	if curMax, found = d.MaxLabel[v]; found && curMax >= label {
+		changed = false
+		return
+	}
 	d.MaxLabel[v] = label
 	if err = d.persistMaxLabel(v); err != nil {
 		err = fmt.Errorf("updateMaxLabel of data %q: %v", d.DataName(), err)
@@ -2182,14 +2187,17 @@ func (d *Data) updateBlockMaxLabel(v dvid.VersionID, block *labels.Block) {
 	}
 	if changed {
 		d.mlMu.Lock()
-		d.MaxLabel[v] = curMax
-		if err := d.persistMaxLabel(v); err != nil {
-			dvid.Errorf("updateBlockMaxLabel of data %q: %v\n", d.DataName(), err)
-		}
-		if curMax > d.MaxRepoLabel {
-			d.MaxRepoLabel = curMax
-			if err := d.persistMaxRepoLabel(); err != nil {
+		// Another request may have raised the max label since it was read above.
+		if storedMax, found := d.MaxLabel[v]; !found || storedMax < curMax {
+			d.MaxLabel[v] = curMax
+			if err := d.persistMaxLabel(v); err != nil {
 				dvid.Errorf("updateBlockMaxLabel of data %q: %v\n", d.DataName(), err)
+			}
+			if curMax > d.MaxRepoLabel {
+				d.MaxRepoLabel = curMax
+				if err := d.persistMaxRepoLabel(); err != nil {
+					dvid.Errorf("updateBlockMaxLabel of data %q: %v\n", d.DataName(), err)
+				}
 			}
 		}
 		d.mlMu.Unlock()
